@@ -201,218 +201,296 @@ def rtE {α} (msg : String) : XM α := em (eRt msg)
 def unsupE {α} (why : String) : XM α := em (eUnsup why)
 def panicE {α} (msg : String) : XM α := em (goPanic msg)
 
+section perOpcode
+set_option linter.unusedVariables false
+
+def exConstant (code : Code) (f : Fn) (fr : Frame) (ip : Int) (op : Nat) (r : Regs) : XM SimpleOut := let k := op16 f ip
+  match code.consts[k]? with
+  | some (.val v) => do pure { regs := ← em (push r v), ip := ip + 2 }
+  | some (.fn _ ref) => do pure { regs := ← em (push r (.cfn ref)), ip := ip + 2 }
+  | none => fault (.constIndex k)
+
+def exNull (code : Code) (f : Fn) (fr : Frame) (ip : Int) (op : Nat) (r : Regs) : XM SimpleOut := do pure { regs := ← em (push r .undef), ip := ip }
+
+def exTrue (code : Code) (f : Fn) (fr : Frame) (ip : Int) (op : Nat) (r : Regs) : XM SimpleOut := do pure { regs := ← em (push r (.bool true)), ip := ip }
+
+def exFalse (code : Code) (f : Fn) (fr : Frame) (ip : Int) (op : Nat) (r : Regs) : XM SimpleOut := do pure { regs := ← em (push r (.bool false)), ip := ip }
+
+def exPop (code : Code) (f : Fn) (fr : Frame) (ip : Int) (op : Nat) (r : Regs) : XM SimpleOut := do
+  need r 1
+  pure { regs := { r with sp := r.sp - 1 }, ip := ip }
+
+def exBinaryOp (code : Code) (f : Fn) (fr : Frame) (ip : Int) (op : Nat) (r : Regs) : XM SimpleOut := do
+  need r 2
+  let tok := byteAt f (ip + 1)
+  let res ← em (hp (binaryOp (tokOfNum tok) (getSlot r (r.sp - 2)) (getSlot r (r.sp - 1))))
+  let r ← em (setSlot r (r.sp - 2) res)
+  pure { regs := { r with sp := r.sp - 1 }, ip := ip + 1, alloc := true }
+
+def exEqual (code : Code) (f : Fn) (fr : Frame) (ip : Int) (op : Nat) (r : Regs) : XM SimpleOut := do
+  need r 2
+  let e ← em (hp (equalsV 64 (getSlot r (r.sp - 2)) (getSlot r (r.sp - 1))))
+  let r ← em (setSlot r (r.sp - 2) (.bool (if op == opEqual then e else !e)))
+  pure { regs := { r with sp := r.sp - 1 }, ip := ip }
+
+def exLNot (code : Code) (f : Fn) (fr : Frame) (ip : Int) (op : Nat) (r : Regs) : XM SimpleOut := do
+  need r 1
+  let b ← em (hp (isFalsy (getSlot r (r.sp - 1))))
+  pure { regs := ← em (setSlot r (r.sp - 1) (.bool b)), ip := ip }
+
+def exBComplement (code : Code) (f : Fn) (fr : Frame) (ip : Int) (op : Nat) (r : Regs) : XM SimpleOut := do
+  need r 1
+  match getSlot r (r.sp - 1) with
+  | .int n => do pure { regs := ← em (setSlot r (r.sp - 1) (.int (-n - 1))), ip := ip, alloc := true }
+  | a => rtE s!"invalid operation: ^{typeName a}"
+
+def exMinus (code : Code) (f : Fn) (fr : Frame) (ip : Int) (op : Nat) (r : Regs) : XM SimpleOut := do
+  need r 1
+  match getSlot r (r.sp - 1) with
+  | .int n => do pure { regs := ← em (setSlot r (r.sp - 1) (.int (wrap64 (-n)))), ip := ip, alloc := true }
+  | .float x => do pure { regs := ← em (setSlot r (r.sp - 1) (.float (-x))), ip := ip, alloc := true }
+  | a => rtE s!"invalid operation: -{typeName a}"
+
+def exJumpFalsy (code : Code) (f : Fn) (fr : Frame) (ip : Int) (op : Nat) (r : Regs) : XM SimpleOut := do
+  need r 1
+  let b ← em (hp (isFalsy (getSlot r (r.sp - 1))))
+  pure { regs := { r with sp := r.sp - 1 }, ip := if b then Int.ofNat (op32 f ip) - 1 else ip + 4 }
+
+def exAndJump (code : Code) (f : Fn) (fr : Frame) (ip : Int) (op : Nat) (r : Regs) : XM SimpleOut := do
+  need r 1
+  if ← em (hp (isFalsy (getSlot r (r.sp - 1)))) then pure { regs := r, ip := Int.ofNat (op32 f ip) - 1 }
+  else pure { regs := { r with sp := r.sp - 1 }, ip := ip + 4 }
+
+def exOrJump (code : Code) (f : Fn) (fr : Frame) (ip : Int) (op : Nat) (r : Regs) : XM SimpleOut := do
+  need r 1
+  if ← em (hp (isFalsy (getSlot r (r.sp - 1)))) then pure { regs := { r with sp := r.sp - 1 }, ip := ip + 4 }
+  else pure { regs := r, ip := Int.ofNat (op32 f ip) - 1 }
+
+def exJump (code : Code) (f : Fn) (fr : Frame) (ip : Int) (op : Nat) (r : Regs) : XM SimpleOut := pure { regs := r, ip := Int.ofNat (op32 f ip) - 1 }
+
+def exSetGlobal (code : Code) (f : Fn) (fr : Frame) (ip : Int) (op : Nat) (r : Regs) : XM SimpleOut := do
+  need r 1
+  let g := op16 f ip
+  if g < r.globals.size then
+    pure { regs := { r with sp := r.sp - 1, globals := r.globals.setIfInBounds g (getSlot r (r.sp - 1)) }, ip := ip + 2 }
+  else fault (.globalIndex g)
+
+def exGetGlobal (code : Code) (f : Fn) (fr : Frame) (ip : Int) (op : Nat) (r : Regs) : XM SimpleOut := do
+  let g := op16 f ip
+  if g < r.globals.size then pure { regs := ← em (push r (r.globals.getD g .undef)), ip := ip + 2 }
+  else fault (.globalIndex g)
+
+def exSetSelGlobal (code : Code) (f : Fn) (fr : Frame) (ip : Int) (op : Nat) (r : Regs) : XM SimpleOut := do
+  let g := op16 f ip
+  let n := byteAt f (ip + 3)
+  need r (n + 1)
+  if g < r.globals.size then do
+    let (sels, v) := selArgs r n
+    em (indexAssign (r.globals.getD g .undef) v sels)
+    pure { regs := { r with sp := r.sp - n - 1 }, ip := ip + 3 }
+  else fault (.globalIndex g)
+
+def exArray (code : Code) (f : Fn) (fr : Frame) (ip : Int) (op : Nat) (r : Regs) : XM SimpleOut := do
+  let n := op16 f ip
+  need r n
+  let a ← em (hp (newArray (slots r (r.sp - n) n)))
+  pure { regs := ← em (push { r with sp := r.sp - n } (.arr a)), ip := ip + 2, alloc := true }
+
+def exMap (code : Code) (f : Fn) (fr : Frame) (ip : Int) (op : Nat) (r : Regs) : XM SimpleOut := do
+  let n := op16 f ip
+  need r n
+  let kvs ← em ((List.range (n / 2)).mapM (fun i => do
+    match getSlot r (r.sp - n + 2 * i) with
+    | .str k => pure (k, getSlot r (r.sp - n + 2 * i + 1))
+    | _ => goPanic "interface conversion: tengo.Object is not *tengo.String") : VMM (List (Bytes × Value)))
+  let m ← em (hp (newMap kvs))
+  pure { regs := ← em (push { r with sp := r.sp - n } (.map m)), ip := ip + 2, alloc := true }
+
+def exError (code : Code) (f : Fn) (fr : Frame) (ip : Int) (op : Nat) (r : Regs) : XM SimpleOut := do
+  need r 1
+  let e ← em (hp (alloc (.err (getSlot r (r.sp - 1)))))
+  pure { regs := ← em (setSlot r (r.sp - 1) (.err e)), ip := ip, alloc := true }
+
+def exImmutable (code : Code) (f : Fn) (fr : Frame) (ip : Int) (op : Nat) (r : Regs) : XM SimpleOut := do
+  need r 1
+  match getSlot r (r.sp - 1) with
+  | .arr a => do
+      let a' ← em (do
+        match ← hp (getObj a) with
+        | .arr st off len => do
+            match ← hp (getObj st) with
+            | .store vs h => hp (setObj st (.store vs (h + 1)))
+            | _ => eUnsup "bad store"
+            hp (alloc (.arr st off len))
+        | _ => eUnsup "bad array" : VMM Nat)
+      pure { regs := ← em (setSlot r (r.sp - 1) (.imarr a')), ip := ip, alloc := true }
+  | .map m => do pure { regs := ← em (setSlot r (r.sp - 1) (.immap m)), ip := ip, alloc := true }
+  | _ => pure { regs := r, ip := ip }
+
+def exIndex (code : Code) (f : Fn) (fr : Frame) (ip : Int) (op : Nat) (r : Regs) : XM SimpleOut := do
+  need r 2
+  let v ← em (indexGet (getSlot r (r.sp - 2)) (getSlot r (r.sp - 1)))
+  let r ← em (setSlot r (r.sp - 2) v)
+  pure { regs := { r with sp := r.sp - 1 }, ip := ip }
+
+def exSliceIndex (code : Code) (f : Fn) (fr : Frame) (ip : Int) (op : Nat) (r : Regs) : XM SimpleOut := do
+  need r 3
+  let v ← em (sliceV (getSlot r (r.sp - 3)) (getSlot r (r.sp - 2)) (getSlot r (r.sp - 1)))
+  pure { regs := ← em (push { r with sp := r.sp - 3 } v), ip := ip, alloc := true }
+
+def exDefineLocal (code : Code) (f : Fn) (fr : Frame) (ip : Int) (op : Nat) (r : Regs) : XM SimpleOut := do
+  need r 1
+  let i := byteAt f (ip + 1)
+  pure { regs := ← em (setSlot { r with sp := r.sp - 1 } (fr.bp + i) (getSlot r (r.sp - 1))), ip := ip + 1 }
+
+def exSetLocal (code : Code) (f : Fn) (fr : Frame) (ip : Int) (op : Nat) (r : Regs) : XM SimpleOut := do
+  need r 1
+  let i := byteAt f (ip + 1)
+  let v := getSlot r (r.sp - 1)
+  let r := { r with sp := r.sp - 1 }
+  match getSlot r (fr.bp + i) with
+  | .ptr c => do em (hp (setObj c (.cell v false))); pure { regs := r, ip := ip + 1 }
+  | _ => do pure { regs := ← em (setSlot r (fr.bp + i) v), ip := ip + 1 }
+
+def exSetSelLocal (code : Code) (f : Fn) (fr : Frame) (ip : Int) (op : Nat) (r : Regs) : XM SimpleOut := do
+  let i := byteAt f (ip + 1)
+  let n := byteAt f (ip + 2)
+  need r (n + 1)
+  let (sels, v) := selArgs r n
+  let dst ← em (deref (getSlot r (fr.bp + i)))
+  em (indexAssign dst v sels)
+  pure { regs := { r with sp := r.sp - n - 1 }, ip := ip + 2 }
+
+def exGetLocal (code : Code) (f : Fn) (fr : Frame) (ip : Int) (op : Nat) (r : Regs) : XM SimpleOut := do
+  let v ← em (deref (getSlot r (fr.bp + byteAt f (ip + 1))))
+  pure { regs := ← em (push r v), ip := ip + 1 }
+
+def exGetBuiltin (code : Code) (f : Fn) (fr : Frame) (ip : Int) (op : Nat) (r : Regs) : XM SimpleOut := do
+  let i := byteAt f (ip + 1)
+  match builtinNames[i]? with
+  | some n => do pure { regs := ← em (push r (.builtin n)), ip := ip + 1 }
+  | none => fault (.builtinIndex i)
+
+def exClosure (code : Code) (f : Fn) (fr : Frame) (ip : Int) (op : Nat) (r : Regs) : XM SimpleOut := do
+  let k := op16 f ip
+  let numFree := byteAt f (ip + 3)
+  need r numFree
+  match code.consts[k]? with
+  | some (.fn _ _) => do
+    -- compiled code only ever captures through GETLP / GETFP, i.e. cells; a bare value is boxed
+    let free ← em ((slots r (r.sp - numFree) numFree).mapM (fun v => do
+      match v with
+      | .ptr c => pure c
+      | v => hp (alloc (.cell v false))) : VMM (List Nat))
+    let cl := r.fobjs.size
+    let r := { r with sp := r.sp - numFree, fobjs := r.fobjs.push (k, free) }
+    pure { regs := ← em (push r (.cfn cl)), ip := ip + 3, alloc := true }
+  | some (.val _) => fault (.notFunction k)
+  | none => fault (.constIndex k)
+
+def exGetFreePtr (code : Code) (f : Fn) (fr : Frame) (ip : Int) (op : Nat) (r : Regs) : XM SimpleOut := do
+  let i := byteAt f (ip + 1)
+  match fr.free[i]? with
+  | some c => do pure { regs := ← em (push r (.ptr c)), ip := ip + 1 }
+  | none => fault (.freeIndex i)
+
+def exGetFree (code : Code) (f : Fn) (fr : Frame) (ip : Int) (op : Nat) (r : Regs) : XM SimpleOut := do
+  let i := byteAt f (ip + 1)
+  match fr.free[i]? with
+  | some c => do pure { regs := ← em (do push r (← deref (.ptr c))), ip := ip + 1 }
+  | none => fault (.freeIndex i)
+
+def exSetFree (code : Code) (f : Fn) (fr : Frame) (ip : Int) (op : Nat) (r : Regs) : XM SimpleOut := do
+  need r 1
+  let i := byteAt f (ip + 1)
+  match fr.free[i]? with
+  | some c => do
+      em (hp (setObj c (.cell (getSlot r (r.sp - 1)) false)))
+      pure { regs := { r with sp := r.sp - 1 }, ip := ip + 1 }
+  | none => fault (.freeIndex i)
+
+def exGetLocalPtr (code : Code) (f : Fn) (fr : Frame) (ip : Int) (op : Nat) (r : Regs) : XM SimpleOut := do
+  let slot := fr.bp + byteAt f (ip + 1)
+  match getSlot r slot with
+  | .ptr c => do pure { regs := ← em (push r (.ptr c)), ip := ip + 1 }
+  | v => do
+      let c ← em (hp (alloc (.cell v false)))
+      let r ← em (setSlot r slot (.ptr c))
+      pure { regs := ← em (push r (.ptr c)), ip := ip + 1 }
+
+def exSetSelFree (code : Code) (f : Fn) (fr : Frame) (ip : Int) (op : Nat) (r : Regs) : XM SimpleOut := do
+  let i := byteAt f (ip + 1)
+  let n := byteAt f (ip + 2)
+  need r (n + 1)
+  let (sels, v) := selArgs r n
+  match fr.free[i]? with
+  | some c => do
+      em (do indexAssign (← deref (.ptr c)) v sels)
+      pure { regs := { r with sp := r.sp - n - 1 }, ip := ip + 2 }
+  | none => fault (.freeIndex i)
+
+def exIteratorInit (code : Code) (f : Fn) (fr : Frame) (ip : Int) (op : Nat) (r : Regs) : XM SimpleOut := do
+  need r 1
+  let v := getSlot r (r.sp - 1)
+  match ← em (makeIter v) with
+  | none => rtE s!"not iterable: {typeName v}"
+  | some o => do
+      let it ← em (hp (alloc o))
+      pure { regs := ← em (setSlot r (r.sp - 1) (.iter it)), ip := ip, alloc := true }
+
+def exIteratorNext (code : Code) (f : Fn) (fr : Frame) (ip : Int) (op : Nat) (r : Regs) : XM SimpleOut := do
+  need r 1
+  match getSlot r (r.sp - 1) with
+  | .iter it => do pure { regs := ← em (do setSlot r (r.sp - 1) (.bool (← iterNext it))), ip := ip }
+  | _ => panicE "interface conversion: tengo.Object is not tengo.Iterator"
+
+def exIteratorKey (code : Code) (f : Fn) (fr : Frame) (ip : Int) (op : Nat) (r : Regs) : XM SimpleOut := do
+  need r 1
+  match getSlot r (r.sp - 1) with
+  | .iter it => do pure { regs := ← em (do setSlot r (r.sp - 1) (← iterGet it (op == opIteratorKey))), ip := ip }
+  | _ => panicE "interface conversion: tengo.Object is not tengo.Iterator"
+
+end perOpcode
+
 /-- The opcodes that neither call, return nor suspend. `ip` is the index of the opcode byte. -/
-def execSimple (code : Code) (f : Fn) (fr : Frame) (ip : Int) (op : Nat) (r : Regs) : XM SimpleOut := do
-  if op == opConstant then
-    let k := op16 f ip
-    match code.consts[k]? with
-    | some (.val v) => do pure { regs := ← em (push r v), ip := ip + 2 }
-    | some (.fn _ ref) => do pure { regs := ← em (push r (.cfn ref)), ip := ip + 2 }
-    | none => fault (.constIndex k)
-  else if op == opNull then do pure { regs := ← em (push r .undef), ip := ip }
-  else if op == opTrue then do pure { regs := ← em (push r (.bool true)), ip := ip }
-  else if op == opFalse then do pure { regs := ← em (push r (.bool false)), ip := ip }
-  else if op == opPop then do
-    need r 1
-    pure { regs := { r with sp := r.sp - 1 }, ip := ip }
-  else if op == opBinaryOp then do
-    need r 2
-    let tok := byteAt f (ip + 1)
-    let res ← em (hp (binaryOp (tokOfNum tok) (getSlot r (r.sp - 2)) (getSlot r (r.sp - 1))))
-    let r ← em (setSlot r (r.sp - 2) res)
-    pure { regs := { r with sp := r.sp - 1 }, ip := ip + 1, alloc := true }
-  else if op == opEqual || op == opNotEqual then do
-    need r 2
-    let e ← em (hp (equalsV 64 (getSlot r (r.sp - 2)) (getSlot r (r.sp - 1))))
-    let r ← em (setSlot r (r.sp - 2) (.bool (if op == opEqual then e else !e)))
-    pure { regs := { r with sp := r.sp - 1 }, ip := ip }
-  else if op == opLNot then do
-    need r 1
-    let b ← em (hp (isFalsy (getSlot r (r.sp - 1))))
-    pure { regs := ← em (setSlot r (r.sp - 1) (.bool b)), ip := ip }
-  else if op == opBComplement then do
-    need r 1
-    match getSlot r (r.sp - 1) with
-    | .int n => do pure { regs := ← em (setSlot r (r.sp - 1) (.int (-n - 1))), ip := ip, alloc := true }
-    | a => rtE s!"invalid operation: ^{typeName a}"
-  else if op == opMinus then do
-    need r 1
-    match getSlot r (r.sp - 1) with
-    | .int n => do pure { regs := ← em (setSlot r (r.sp - 1) (.int (wrap64 (-n)))), ip := ip, alloc := true }
-    | .float x => do pure { regs := ← em (setSlot r (r.sp - 1) (.float (-x))), ip := ip, alloc := true }
-    | a => rtE s!"invalid operation: -{typeName a}"
-  else if op == opJumpFalsy then do
-    need r 1
-    let b ← em (hp (isFalsy (getSlot r (r.sp - 1))))
-    pure { regs := { r with sp := r.sp - 1 }, ip := if b then Int.ofNat (op32 f ip) - 1 else ip + 4 }
-  else if op == opAndJump then do
-    need r 1
-    if ← em (hp (isFalsy (getSlot r (r.sp - 1)))) then pure { regs := r, ip := Int.ofNat (op32 f ip) - 1 }
-    else pure { regs := { r with sp := r.sp - 1 }, ip := ip + 4 }
-  else if op == opOrJump then do
-    need r 1
-    if ← em (hp (isFalsy (getSlot r (r.sp - 1)))) then pure { regs := { r with sp := r.sp - 1 }, ip := ip + 4 }
-    else pure { regs := r, ip := Int.ofNat (op32 f ip) - 1 }
-  else if op == opJump then pure { regs := r, ip := Int.ofNat (op32 f ip) - 1 }
-  else if op == opSetGlobal then do
-    need r 1
-    let g := op16 f ip
-    if g < r.globals.size then
-      pure { regs := { r with sp := r.sp - 1, globals := r.globals.setIfInBounds g (getSlot r (r.sp - 1)) }, ip := ip + 2 }
-    else fault (.globalIndex g)
-  else if op == opGetGlobal then do
-    let g := op16 f ip
-    if g < r.globals.size then pure { regs := ← em (push r (r.globals.getD g .undef)), ip := ip + 2 }
-    else fault (.globalIndex g)
-  else if op == opSetSelGlobal then do
-    let g := op16 f ip
-    let n := byteAt f (ip + 3)
-    need r (n + 1)
-    if g < r.globals.size then do
-      let (sels, v) := selArgs r n
-      em (indexAssign (r.globals.getD g .undef) v sels)
-      pure { regs := { r with sp := r.sp - n - 1 }, ip := ip + 3 }
-    else fault (.globalIndex g)
-  else if op == opArray then do
-    let n := op16 f ip
-    need r n
-    let a ← em (hp (newArray (slots r (r.sp - n) n)))
-    pure { regs := ← em (push { r with sp := r.sp - n } (.arr a)), ip := ip + 2, alloc := true }
-  else if op == opMap then do
-    let n := op16 f ip
-    need r n
-    let kvs ← em ((List.range (n / 2)).mapM (fun i => do
-      match getSlot r (r.sp - n + 2 * i) with
-      | .str k => pure (k, getSlot r (r.sp - n + 2 * i + 1))
-      | _ => goPanic "interface conversion: tengo.Object is not *tengo.String") : VMM (List (Bytes × Value)))
-    let m ← em (hp (newMap kvs))
-    pure { regs := ← em (push { r with sp := r.sp - n } (.map m)), ip := ip + 2, alloc := true }
-  else if op == opError then do
-    need r 1
-    let e ← em (hp (alloc (.err (getSlot r (r.sp - 1)))))
-    pure { regs := ← em (setSlot r (r.sp - 1) (.err e)), ip := ip, alloc := true }
-  else if op == opImmutable then do
-    need r 1
-    match getSlot r (r.sp - 1) with
-    | .arr a => do
-        let a' ← em (do
-          match ← hp (getObj a) with
-          | .arr st off len => do
-              match ← hp (getObj st) with
-              | .store vs h => hp (setObj st (.store vs (h + 1)))
-              | _ => eUnsup "bad store"
-              hp (alloc (.arr st off len))
-          | _ => eUnsup "bad array" : VMM Nat)
-        pure { regs := ← em (setSlot r (r.sp - 1) (.imarr a')), ip := ip, alloc := true }
-    | .map m => do pure { regs := ← em (setSlot r (r.sp - 1) (.immap m)), ip := ip, alloc := true }
-    | _ => pure { regs := r, ip := ip }
-  else if op == opIndex then do
-    need r 2
-    let v ← em (indexGet (getSlot r (r.sp - 2)) (getSlot r (r.sp - 1)))
-    let r ← em (setSlot r (r.sp - 2) v)
-    pure { regs := { r with sp := r.sp - 1 }, ip := ip }
-  else if op == opSliceIndex then do
-    need r 3
-    let v ← em (sliceV (getSlot r (r.sp - 3)) (getSlot r (r.sp - 2)) (getSlot r (r.sp - 1)))
-    pure { regs := ← em (push { r with sp := r.sp - 3 } v), ip := ip, alloc := true }
-  else if op == opDefineLocal then do
-    need r 1
-    let i := byteAt f (ip + 1)
-    pure { regs := ← em (setSlot { r with sp := r.sp - 1 } (fr.bp + i) (getSlot r (r.sp - 1))), ip := ip + 1 }
-  else if op == opSetLocal then do
-    need r 1
-    let i := byteAt f (ip + 1)
-    let v := getSlot r (r.sp - 1)
-    let r := { r with sp := r.sp - 1 }
-    match getSlot r (fr.bp + i) with
-    | .ptr c => do em (hp (setObj c (.cell v false))); pure { regs := r, ip := ip + 1 }
-    | _ => do pure { regs := ← em (setSlot r (fr.bp + i) v), ip := ip + 1 }
-  else if op == opSetSelLocal then do
-    let i := byteAt f (ip + 1)
-    let n := byteAt f (ip + 2)
-    need r (n + 1)
-    let (sels, v) := selArgs r n
-    let dst ← em (deref (getSlot r (fr.bp + i)))
-    em (indexAssign dst v sels)
-    pure { regs := { r with sp := r.sp - n - 1 }, ip := ip + 2 }
-  else if op == opGetLocal then do
-    let v ← em (deref (getSlot r (fr.bp + byteAt f (ip + 1))))
-    pure { regs := ← em (push r v), ip := ip + 1 }
-  else if op == opGetBuiltin then do
-    let i := byteAt f (ip + 1)
-    match builtinNames[i]? with
-    | some n => do pure { regs := ← em (push r (.builtin n)), ip := ip + 1 }
-    | none => fault (.builtinIndex i)
-  else if op == opClosure then do
-    let k := op16 f ip
-    let numFree := byteAt f (ip + 3)
-    need r numFree
-    match code.consts[k]? with
-    | some (.fn _ _) => do
-      -- compiled code only ever captures through GETLP / GETFP, i.e. cells; a bare value is boxed
-      let free ← em ((slots r (r.sp - numFree) numFree).mapM (fun v => do
-        match v with
-        | .ptr c => pure c
-        | v => hp (alloc (.cell v false))) : VMM (List Nat))
-      let cl := r.fobjs.size
-      let r := { r with sp := r.sp - numFree, fobjs := r.fobjs.push (k, free) }
-      pure { regs := ← em (push r (.cfn cl)), ip := ip + 3, alloc := true }
-    | some (.val _) => fault (.notFunction k)
-    | none => fault (.constIndex k)
-  else if op == opGetFreePtr then do
-    let i := byteAt f (ip + 1)
-    match fr.free[i]? with
-    | some c => do pure { regs := ← em (push r (.ptr c)), ip := ip + 1 }
-    | none => fault (.freeIndex i)
-  else if op == opGetFree then do
-    let i := byteAt f (ip + 1)
-    match fr.free[i]? with
-    | some c => do pure { regs := ← em (do push r (← deref (.ptr c))), ip := ip + 1 }
-    | none => fault (.freeIndex i)
-  else if op == opSetFree then do
-    need r 1
-    let i := byteAt f (ip + 1)
-    match fr.free[i]? with
-    | some c => do
-        em (hp (setObj c (.cell (getSlot r (r.sp - 1)) false)))
-        pure { regs := { r with sp := r.sp - 1 }, ip := ip + 1 }
-    | none => fault (.freeIndex i)
-  else if op == opGetLocalPtr then do
-    let slot := fr.bp + byteAt f (ip + 1)
-    match getSlot r slot with
-    | .ptr c => do pure { regs := ← em (push r (.ptr c)), ip := ip + 1 }
-    | v => do
-        let c ← em (hp (alloc (.cell v false)))
-        let r ← em (setSlot r slot (.ptr c))
-        pure { regs := ← em (push r (.ptr c)), ip := ip + 1 }
-  else if op == opSetSelFree then do
-    let i := byteAt f (ip + 1)
-    let n := byteAt f (ip + 2)
-    need r (n + 1)
-    let (sels, v) := selArgs r n
-    match fr.free[i]? with
-    | some c => do
-        em (do indexAssign (← deref (.ptr c)) v sels)
-        pure { regs := { r with sp := r.sp - n - 1 }, ip := ip + 2 }
-    | none => fault (.freeIndex i)
-  else if op == opIteratorInit then do
-    need r 1
-    let v := getSlot r (r.sp - 1)
-    match ← em (makeIter v) with
-    | none => rtE s!"not iterable: {typeName v}"
-    | some o => do
-        let it ← em (hp (alloc o))
-        pure { regs := ← em (setSlot r (r.sp - 1) (.iter it)), ip := ip, alloc := true }
-  else if op == opIteratorNext then do
-    need r 1
-    match getSlot r (r.sp - 1) with
-    | .iter it => do pure { regs := ← em (do setSlot r (r.sp - 1) (.bool (← iterNext it))), ip := ip }
-    | _ => panicE "interface conversion: tengo.Object is not tengo.Iterator"
-  else if op == opIteratorKey || op == opIteratorValue then do
-    need r 1
-    match getSlot r (r.sp - 1) with
-    | .iter it => do pure { regs := ← em (do setSlot r (r.sp - 1) (← iterGet it (op == opIteratorKey))), ip := ip }
-    | _ => panicE "interface conversion: tengo.Object is not tengo.Iterator"
+def execSimple (code : Code) (f : Fn) (fr : Frame) (ip : Int) (op : Nat) (r : Regs) : XM SimpleOut :=
+  if op == opConstant then exConstant code f fr ip op r
+  else if op == opNull then exNull code f fr ip op r
+  else if op == opTrue then exTrue code f fr ip op r
+  else if op == opFalse then exFalse code f fr ip op r
+  else if op == opPop then exPop code f fr ip op r
+  else if op == opBinaryOp then exBinaryOp code f fr ip op r
+  else if op == opEqual || op == opNotEqual then exEqual code f fr ip op r
+  else if op == opLNot then exLNot code f fr ip op r
+  else if op == opBComplement then exBComplement code f fr ip op r
+  else if op == opMinus then exMinus code f fr ip op r
+  else if op == opJumpFalsy then exJumpFalsy code f fr ip op r
+  else if op == opAndJump then exAndJump code f fr ip op r
+  else if op == opOrJump then exOrJump code f fr ip op r
+  else if op == opJump then exJump code f fr ip op r
+  else if op == opSetGlobal then exSetGlobal code f fr ip op r
+  else if op == opGetGlobal then exGetGlobal code f fr ip op r
+  else if op == opSetSelGlobal then exSetSelGlobal code f fr ip op r
+  else if op == opArray then exArray code f fr ip op r
+  else if op == opMap then exMap code f fr ip op r
+  else if op == opError then exError code f fr ip op r
+  else if op == opImmutable then exImmutable code f fr ip op r
+  else if op == opIndex then exIndex code f fr ip op r
+  else if op == opSliceIndex then exSliceIndex code f fr ip op r
+  else if op == opDefineLocal then exDefineLocal code f fr ip op r
+  else if op == opSetLocal then exSetLocal code f fr ip op r
+  else if op == opSetSelLocal then exSetSelLocal code f fr ip op r
+  else if op == opGetLocal then exGetLocal code f fr ip op r
+  else if op == opGetBuiltin then exGetBuiltin code f fr ip op r
+  else if op == opClosure then exClosure code f fr ip op r
+  else if op == opGetFreePtr then exGetFreePtr code f fr ip op r
+  else if op == opGetFree then exGetFree code f fr ip op r
+  else if op == opSetFree then exSetFree code f fr ip op r
+  else if op == opGetLocalPtr then exGetLocalPtr code f fr ip op r
+  else if op == opSetSelFree then exSetSelFree code f fr ip op r
+  else if op == opIteratorInit then exIteratorInit code f fr ip op r
+  else if op == opIteratorNext then exIteratorNext code f fr ip op r
+  else if op == opIteratorKey || op == opIteratorValue then exIteratorKey code f fr ip op r
   else fault (.unknownOpcode op)
 
 /-! ### calls and returns -/
